@@ -127,15 +127,15 @@ type cursorScenario struct {
 	slots    []*bs.VerifSlot
 	sem      chan struct{}
 
-	cancelled  bool
-	finished   bool
-	nextObs    []nextObs         // consumer's observations in order
-	perWorker  map[int][][]int64 // worker index -> batches in issue order
-	stats      []bs.BlockStats   // in call order
-	errIDs     []int64
-	errObs     map[int]terr // log position (index of last event) -> Err() seen
-	serial     int
-	plan       []string
+	cancelled bool
+	finished  bool
+	nextObs   []nextObs         // consumer's observations in order
+	perWorker map[int][][]int64 // worker index -> batches in issue order
+	stats     []bs.BlockStats   // in call order
+	errIDs    []int64
+	errObs    map[int]terr // log position (index of last event) -> Err() seen
+	serial    int
+	plan      []string
 }
 
 const settleShort = 400 * time.Microsecond
